@@ -327,6 +327,28 @@ def handle (line : String) : String :=
         | .ok cs => showData (cs.map fun c => (c.pre, c.suf)) data
       | none => "bad-op"
     | none => "bad-op"
+  | "makem" :: n :: rest =>     -- diagnostic: the model merges the chunks itself (`mergeChunks`, `C09.make_shows`)
+    match n.toNat? with
+    | some k =>
+      match parseParts k rest with
+      | some parts => showExcept (fun cs => showCps (render (mergeChunks cs))) (mkChunks cfg parts)
+      | none => "bad-op"
+    | none => "bad-op"
+  | ["route", fg, bg, eff, nc, rt, text, "@", l, r] =>
+    -- a route from `fmt(text)` to a str; `l` / `r` = what the real route wrote around the text (data)
+    match parseSpec fg bg eff nc, parseCps text with
+    | some s, some t =>
+      match mkChunk cfg s t with
+      | .error e => "err " ++ e.name
+      | .ok c =>
+        if l.startsWith "E:" then "err " ++ (l.drop 2).toString
+        else
+          match parseCps l, parseCps r with
+          | some l, some r =>
+            let route := if rt = "str" || rt = "pct" then Route.direct else Route.viaText
+            "ok " ++ showCps (routeStr l r c route)
+          | _, _ => "bad-op"
+    | _, _ => "bad-op"
   | ["first", entry, text] =>    -- the first call in a fresh process: the model has no "first time"
     match parseCps text with
     | some t =>
